@@ -98,6 +98,7 @@ def run(ctx):
     c10_4(ctx)
     c10_1b(ctx)
     c10_finalize_limit(ctx)
+    c10_estimate_units(ctx)
 
 
 def _rejected_returns(b):
@@ -388,3 +389,40 @@ def c10_finalize_limit(ctx):
                 ok = False
         ctx.ob(R, "finalize-limit:" + nm, ok, "%s finalize proceeds iff total cost <= max block cost (non-strict, as admission)" % nm,
                found=detail, where=f.sp)
+
+
+def c10_estimate_units(ctx):
+    """'the running cost estimate never underestimates the final cost' rests on a per-spend upper bound in *virtual bytes*:
+    interned size of the spend tuple in isolation plus the 3 vbytes of the cons cell that links it into the list, and only then
+    converted to cost by cost_per_byte.  Rule: spend_vbytes = interned_vbytes(intern_tree(tuple)) + COST_CONS with COST_CONS = 3
+    (a pair's interned weight, cf. interned_vbytes' weights 2/3), and the accumulator grows by exactly
+    spend_vbytes(spend) * cost_per_byte per spend (a vbyte constant added after the multiplication is 12000 times too small)."""
+    from .. import apnf
+    from .. import paths as P
+    R = "C10.4"
+    fb = ctx.fb
+    cc = fb.consts.get("chia_consensus::build_interned_block::COST_CONS", {}).get("value")
+    ctx.ob(R, "interned:COST_CONS", cc == 3, "COST_CONS = 3 vbytes (interned weight of one pair)", found=cc)
+    f = fb.fns.get(IB + "::spend_vbytes")
+    if f is None:
+        ctx.missing(R, "interned:spend_vbytes", "not found")
+    else:
+        b = Body(f, fb)
+        ctx.touched(b.path)
+        oks = [str(apnf.N(P.ret_of(ev))) for ev, ex in P.enumerate_paths(b) if ex[0] == "return" and P.ret_class(ev) == "Ok"]
+        okv = bool(oks) and all(o.startswith("('Ok', ('.0', ('AddWithOverflow', ('interned_vbytes', ('intern_tree', ") and o.endswith(", 3)))") for o in oks)
+        ctx.ob(R, "interned:spend_vbytes", okv, "spend_vbytes = interned_vbytes(intern_tree(spend tuple)) + COST_CONS",
+               found=[o[:70] + " ... " + o[-12:] for o in oks][:2])
+    fi = _find(fb, IB + "::add_spend_bundles")
+    if fi:
+        b = Body(fi, fb)
+        l = b.local_named("new_byte_cost")
+        steps = []
+        if l:
+            for kind, bi, si, x in b.defs().get(l[0], []):
+                if kind == "s" and b.in_cycle(bi):
+                    steps.append(str(apnf.N(b.rvalue_term(x["rv"]))))
+        want = "('.0', ('AddWithOverflow', 'var:new_byte_cost', ('.0', ('MulWithOverflow', ('InternedBlockBuilder::spend_vbytes', "
+        ok = len(steps) == 1 and steps[0].startswith(want) and steps[0].endswith("('.cost_per_byte', 'self')))))")
+        ctx.ob(R, "interned:estimate-step", ok, "per spend the byte-cost estimate grows by spend_vbytes(spend) * cost_per_byte, nothing else",
+               found=[x[:200] for x in steps], where=fi.sp)
